@@ -173,11 +173,23 @@ def audit(pid):
         res["failed"] = failed_theorems(pid, log) or names
         res["discharged"] = len([n for n in names if n not in res["failed"]])
         return res
-    src = f"import YarlProofs.{pid}\nopen Yarl\n" + "\n".join(f"#print axioms {n}" for n in names) + "\n"
+    body = strip_comments(open(os.path.join(LEAN, "YarlProofs", f"{pid}.lean")).read())
+    nss = ["Yarl", "Yarl.Cache", "Yarl.Writer"]
+    stack = []
+    for m in re.finditer(r"^(namespace|end)\s+([A-Za-z0-9_.]+)", body, flags=re.M):
+        if m.group(1) == "namespace":
+            stack.append(m.group(2))
+            full = ".".join(stack)
+            for cand in (full, "Yarl." + full):
+                if cand not in nss:
+                    nss.append(cand)
+        elif stack:
+            stack.pop()
+    src = f"import YarlProofs.{pid}\n" + "".join(f"open {ns}\n" for ns in nss if ns.startswith("Yarl")) + "\n".join(f"#print axioms {n}" for n in names) + "\n"
     r = subprocess.run(["lake", "env", "lean", "--stdin"], cwd=LEAN, input=src, capture_output=True, text=True, timeout=900)
     out = r.stdout + r.stderr
     for n in names:
-        m = re.search(r"'(?:Yarl\.)?" + re.escape(n) + r"' (depends on axioms: \[([^\]]*)\]|does not depend on any axioms)", out, flags=re.S)
+        m = re.search(r"'(?:[A-Za-z0-9_]+\.)*" + re.escape(n) + r"' (depends on axioms: \[([^\]]*)\]|does not depend on any axioms)", out, flags=re.S)
         if not m:
             res["failed"].append(n)
             continue
